@@ -90,9 +90,18 @@ def c12_config(rng, ndays, n_sites, n_sims, four=True, keep_all=True):
     m["FIX"].update({"mdl": 0.0625, "temporal": 0.75, "spatial": 0.75, "qe": [0.0, 50.0], "qe_type": "default"})
     m["OGI_FU2"].update({"t_bw_sites": [10.0, 30.0, 50.0], "spatial": 0.5, "mdl": 0.015625,
                          "qe": [QE_FILE, "err"], "qe_type": "sample"})
-    progs = [("P_none", []), ("P_OGI", ["OGI"]), ("P_air", ["AIR", "OGI_FU"])]
+    # AIR_L: a second screening method; P_air and P_airL SHARE the follow-up method label OGI_FU (spatial
+    # coverage 0.75, sampled travel times), P_OGI and P_ogiB share the label OGI (spatial 0.5): state keyed by
+    # method label that leaks from one program's copy of the infrastructure into another's shows up here
+    m["AIR_L"] = json.loads(json.dumps(m["AIR"]))
+    m["AIR_L"].update({"mdl": 0.5, "spatial": 0.5, "surveys_per_year": 6, "t_bw_sites": [10.0, 25.0]})
+    m["AIR_L"]["follow_up"].update({"proportion": 1.0, "delay": rng.choice([0, 5])})
     if four:
-        progs.append(("P_fix", ["FIX", "OGI_FU2"]))
+        progs = [("P_none", []), ("P_OGI", ["OGI"]), ("P_air", ["AIR", "OGI_FU"]), ("P_airL", ["AIR_L", "OGI_FU"]),
+                 ("P_fix", ["FIX", "OGI_FU2"])]
+    else:
+        progs = [("P_none", []), ("P_OGI", ["OGI"]), ("P_ogiB", ["OGI"]), ("P_air", ["AIR", "OGI_FU"]),
+                 ("P_airL", ["AIR_L", "OGI_FU"])]
     cfg["programs"] = [{"name": n, "methods": ms} for n, ms in progs]
     cfg["baseline"] = "P_none"
     cfg["keep_all"] = keep_all
@@ -348,6 +357,13 @@ def check_monitor(ctx, run, tables, label):
             if not has_std:
                 ctx.disagree("effects-table:rngSites", {"schedule": sched_str(run.sched), "task": [t["prog"], t["sim"]]},
                              "no stdlibRandom site", "stdlib random state moved while the task ran")
+        if t.get("infra_arg_mutated"):
+            ctx.count("monitor_infra_arg_mutated")
+            ctx.disagree("effects-model:private-state-is-a-fresh-copy", {"schedule": sched_str(run.sched), "task": [t["prog"], t["sim"]]},
+                         "simulate() leaves its infrastructure argument untouched",
+                         "the pickled infrastructure argument changed while the task ran (state shared between programs' copies)")
+        elif t.get("infra_digest_ok"):
+            ctx.count("hypothesis_infra_arg_untouched_hit")
         if t["np_draw_before_seed"]:
             ctx.count("monitor_draw_before_seed")
             ctx.disagree("effects-model:no-draw-before-first-reseed", {"schedule": sched_str(run.sched), "task": [t["prog"], t["sim"]],
